@@ -39,5 +39,13 @@ if ! go build -modfile="$bd/go.mod" -tags "$tags" -overlay "$ov" -o "$OUT/bin/$c
   echo "HARNESS-ERROR: build of $chk failed" >&2
   exit 2
 fi
+# optional second build with the race detector (free-running pass of the same harness bodies)
+if [ -f "/verif/checks/$chk/RACE" ]; then
+  if ! go build -race -modfile="$bd/go.mod" -tags "$tags" -overlay "$ov" -o "$OUT/bin/$chk-race" "./checks/$chk" 2> "$OUT/logs/$chk.racebuild.log"; then
+    cat "$OUT/logs/$chk.racebuild.log" >&2
+    echo "HARNESS-ERROR: race build of $chk failed" >&2
+    exit 2
+  fi
+fi
 [ -n "${VERIF_BUILD_ONLY:-}" ] && exit 0
 exec "$OUT/bin/$chk" "$@" 2> "$OUT/logs/$chk.stderr.log"
